@@ -491,6 +491,25 @@ func init() {
 		parts = append(parts, rest)
 		return mkStrSlice(parts)
 	})
+	reg("strings.Count", func(e *Engine, fn *ssa.Function, a []Value, s ssa.Instruction) Value {
+		x, sub := T(a[0]), T(a[1])
+		if x.Const && sub.Const {
+			return mkBV(64, uint64(strings.Count(x.SVal, sub.SVal)))
+		}
+		if sub.Const && len(sub.SVal) == 1 {
+			n := 0
+			for _, p := range partsOf(x) {
+				if p.Const {
+					n += strings.Count(p.SVal, sub.SVal)
+				} else if mayContain(p, sub.SVal[0]) {
+					e.abort("unsupported", "strings.Count on a symbolic part that may contain the separator")
+				}
+			}
+			return mkBV(64, uint64(n))
+		}
+		e.abort("unsupported", "strings.Count on symbolic strings")
+		return nil
+	})
 	reg("strings.EqualFold", func(e *Engine, fn *ssa.Function, a []Value, s ssa.Instruction) Value {
 		x, y := strToLower(T(a[0])), strToLower(T(a[1]))
 		if x == nil || y == nil {
